@@ -473,8 +473,36 @@ impl Space for YearMonthBoundary {
     }
 }
 
+/// Public constructors that cannot fail: whatever they return must be a well-formed value.
+struct InfallibleConstructors;
+impl Space for InfallibleConstructors {
+    fn name(&self) -> String {
+        "c02.infallible_constructors".into()
+    }
+    fn len(&self) -> u64 {
+        1
+    }
+    fn full_oracle(&self) -> bool {
+        true
+    }
+    fn eval(&self, _: u64, out: &mut Out) {
+        use temporal_rs::primitive::FiniteF64;
+        use temporal_rs::TimeDuration;
+        out.nontrivial += 1;
+        let times: Vec<[f64; 6]> = vec![[0.0; 6], [1.0, 0.0, 0.0, 0.0, 0.0, 0.0], [-1.0, 0.0, 0.0, 0.0, 0.0, 0.0], [0.0, 0.0, 0.0, 0.0, 0.0, -1.0], [2_501_999_792_983.0, 0.0, 0.0, 0.0, 0.0, 0.0]];
+        for day in [0.0, 1.0, -1.0, 0.5, 104_249_991_374.0, 104_249_991_375.0, 1e300, -1e300] {
+            for t in &times {
+                let Ok(time) = TimeDuration::new(FiniteF64::try_from(t[0]).unwrap(), FiniteF64::try_from(t[1]).unwrap(), FiniteF64::try_from(t[2]).unwrap(), FiniteF64::try_from(t[3]).unwrap(), FiniteF64::try_from(t[4]).unwrap(), FiniteF64::try_from(t[5]).unwrap()) else { continue };
+                let d = Duration::from_day_and_time(FiniteF64::try_from(day).unwrap(), &time);
+                let f = dur_fields(&d);
+                out.law("Duration::from_day_and_time: returned duration is valid", tmc_ref::r5::is_valid(&f), || vec![("day", format!("{day:?}")), ("time", format!("{t:?}")), ("fields", format!("{f:?}"))]);
+            }
+        }
+    }
+}
+
 pub fn boundary_spaces() -> Vec<Box<dyn Space>> {
-    vec![Box::new(DateBoundary), Box::new(DateTimeBoundary), Box::new(InstantBoundary), Box::new(YearMonthBoundary)]
+    vec![Box::new(DateBoundary), Box::new(DateTimeBoundary), Box::new(InstantBoundary), Box::new(YearMonthBoundary), Box::new(InfallibleConstructors)]
 }
 
 /// The spaces of the other checks, to be judged with the reduced oracle of the aggregating check.
